@@ -192,15 +192,20 @@ def rule_search_direction(ck):
         ok = isinstance(ex, ast.ListComp) and len(ex.generators) == 1 and dotted(ex.elt) == dotted(ex.generators[0].target)
         ck.require(ok, "C08.R3", sa, c, ok="candidates keep the EVSE's ascending order (filter only)", bad="the candidate list is re-ordered or transformed before the search", sink="discrete:order-kept")
     # continuous: ub first, then bisection over [lb, ub]
-    mf = anchored_fn(repo, "SortedSchedulingAlgo.max_feasible_rate", ("new_schedule",), nested=True)
+    mf = anchored_fn(repo, "SortedSchedulingAlgo.max_feasible_rate", (), nested=True)
     ml = flow_of(mf)
+    # the working copy of the schedule the candidate rate is written into, whatever it is called
+    if not [nm for nd in ml.cfg.nodes for nm, how in ml._defs.get(nd, {}).items() if how[0] == "assign" and how[1] is not None
+            and canon(how[1]) in ("copy(schedule)", "schedule.copy()", "np.copy(schedule)", "np.array(schedule)", "deepcopy(schedule)")]:
+        raise AnalysisError("SortedSchedulingAlgo.max_feasible_rate was restructured: no working copy of the schedule (copy(schedule)) the candidate rate is written into")
     rets = [n for n in ml.cfg.nodes if n.kind == "return"]
     ubr = [n for n in rets if canon(n.expr) == "ub"]
     bis = [n for n in rets if isinstance(n.expr, ast.Call) and call_name(n.expr) == "bisection"]
     ck.require(len(ubr) == 1 and len(bis) == 1, "C08.R3", mf, "ub first, else bisection", ok="tries ub, otherwise bisects", bad=f"{len(ubr)} `return ub` and {len(bis)} bisection returns",
                sink="continuous:shape")
     if ubr and bis:
-        ck.require(any(is_feasible_call(a) and not t for a, t in facts_at(ml, bis[0])), "C08.R3", mf, bis[0].stmt, ok="bisection only when ub itself is infeasible",
+        from .c07 import facts_through_temps
+        ck.require(any(is_feasible_call(a) and not t for a, t in facts_through_temps(ml, bis[0])), "C08.R3", mf, bis[0].stmt, ok="bisection only when ub itself is infeasible",
                    bad="the bisection is not on the infeasible edge of the ub check (the full bound would never be granted)", sink="continuous:bisect-edge")
     from .c07 import bisection_roles
     bi, bl, lo, hi = bisection_roles(repo)
